@@ -19,6 +19,27 @@ Proof.
   unfold aset_okb. intro H. do 4 (let Hn := fresh "C" in apply andb_prop in H as [H Hn]).
   constructor; [apply (forallb_Forall _ _ _ noEb_spec H)|exact C2|apply (forallb_Forall _ _ _ noEb_spec C1)|exact C0|apply (forallb_Forall _ _ _ noEb_spec C)].
 Qed.
+Definition aset_okb2 (x : aset) : bool :=
+  starts_at 1 kwE (s_kwl x)
+  && forallb noEb (a_cap (s_first x) :: a_b1 (s_first x) :: a_hdr (s_first x) :: a_b2 (s_first x) :: a_rows (s_first x))
+  && starts_at 1 kwE (a_kend (s_first x)).
+Lemma aset_okb2_spec x : aset_okb2 x = true -> aset_ok2 x.
+Proof.
+  unfold aset_okb2. intro H. do 2 (let Hn := fresh "C" in apply andb_prop in H as [H Hn]).
+  constructor; [exact H|apply (forallb_Forall _ _ _ noEb_spec C0)|exact C].
+Qed.
+(** the short keywords setup_short_types finds, and the stretches between the full result sets hold only short blocks *)
+Definition scan_check (sets : list aset) : bool :=
+  match setup_short_types (S (length (afile sets))) [] (afile sets) with
+  | Ok sh => match gaps_okA (kwE :: firstn 1 sh) [] sets with Some _ => true | None => false end
+  | Raise _ => false
+  end.
+Lemma scan_check_spec sets : scan_check sets = true ->
+  exists sh N, setup_short_types (S (length (afile sets))) [] (afile sets) = Ok sh /\ gaps_okA (kwE :: firstn 1 sh) [] sets = Some N.
+Proof.
+  unfold scan_check. destruct (setup_short_types (S (length (afile sets))) [] (afile sets)) as [sh|]; [|discriminate].
+  destruct (gaps_okA (kwE :: firstn 1 sh) [] sets) as [N|] eqn:E; [|discriminate]. intros _. exists sh, N. split; [reflexivity|exact E].
+Qed.
 Definition no_shortb (l : str) : bool := match List.find (fun kw => starts_at 1 kw l) short_kws with None => true | Some _ => false end.
 Lemma no_shortb_spec l : no_shortb l = true -> no_short l.
 Proof. unfold no_shortb, no_short. destruct (List.find _ short_kws); [discriminate|reflexivity]. Qed.
@@ -154,7 +175,7 @@ Definition afile_check (sets : list aset) : option (list ltable) :=
       match ashapes (aset_tables x0) with
       | Some Ts =>
           let names := map a_name (aset_tables x0) in
-          if forallb aset_okb sets && forallb no_shortb (afile sets) && stops_okb sets && str_eqb (a_name (s_first x0)) n_element
+          if forallb aset_okb2 sets && scan_check sets && stops_okb sets && str_eqb (a_name (s_first x0)) n_element
              && nodupb str_eqb names && forallb (alike_okb names Ts) sets
           then Some Ts else None
       | None => None
@@ -163,12 +184,12 @@ Definition afile_check (sets : list aset) : option (list ltable) :=
 Theorem afile_check_sound x0 more Ts : afile_check (x0 :: more) = Some Ts -> afile_ok x0 more Ts.
 Proof.
   unfold afile_check. destruct (ashapes (aset_tables x0)) as [Ts'|] eqn:Es; [|discriminate].
-  destruct (forallb aset_okb (x0 :: more) && _ && _ && _ && _ && _) eqn:C; [|discriminate].
+  destruct (forallb aset_okb2 (x0 :: more) && _ && _ && _ && _ && _) eqn:C; [|discriminate].
   intro H. inversion H; subst. clear H.
   do 5 (let Hn := fresh "C" in apply andb_prop in C as [C Hn]).
   constructor.
-  - apply (forallb_Forall _ _ _ aset_okb_spec C).
-  - apply (forallb_Forall _ _ _ no_shortb_spec C4).
+  - apply (forallb_Forall _ _ _ aset_okb2_spec C).
+  - apply scan_check_spec. exact C4.
   - apply stops_okb_spec. exact C3.
   - apply str_eqb_eq. exact C2.
   - apply ashapes_spec. exact Es.
